@@ -331,7 +331,7 @@ pub struct Mk<'a> {
     pub seed: u64,
 }
 
-fn var_scheme(v: &str) -> SignatureSchemes {
+pub fn var_scheme(v: &str) -> SignatureSchemes {
     match v {
         "Basic" => SignatureSchemes::Basic,
         "Aug" => SignatureSchemes::MessageAugmentation,
@@ -340,7 +340,7 @@ fn var_scheme(v: &str) -> SignatureSchemes {
 }
 
 impl<'a> Mk<'a> {
-    fn key_int(&self) -> i64 {
+    pub fn key_int(&self) -> i64 {
         match self.vclass {
             "scalar1" => 1,
             "scalar_rm1" => -1,
@@ -353,21 +353,21 @@ impl<'a> Mk<'a> {
             _ => self.lib.sk::<C>(self.key_int()),
         }
     }
-    fn pt_s<C: BlsSignatureImpl>(&self) -> <C as Pairing>::Signature {
+    pub fn pt_s<C: BlsSignatureImpl>(&self) -> <C as Pairing>::Signature {
         if self.vclass == "identity" {
             <C as Pairing>::Signature::identity()
         } else {
             <C as Pairing>::Signature::generator() * self.sk::<C>().0
         }
     }
-    fn pt_k<C: BlsSignatureImpl>(&self) -> <C as Pairing>::PublicKey {
+    pub fn pt_k<C: BlsSignatureImpl>(&self) -> <C as Pairing>::PublicKey {
         if self.vclass == "identity" {
             <C as Pairing>::PublicKey::identity()
         } else {
             <C as Pairing>::PublicKey::generator() * self.sk::<C>().0
         }
     }
-    fn payload(&self) -> Vec<u8> {
+    pub fn payload(&self) -> Vec<u8> {
         let n = match self.vclass {
             "empty" => 0,
             "one" => 1,
@@ -376,7 +376,7 @@ impl<'a> Mk<'a> {
         };
         crate::signcrypt::msg_of_len(self.lib.conc, "codec", n)
     }
-    fn share_id(&self) -> u8 {
+    pub fn share_id(&self) -> u8 {
         match self.vclass {
             "id1" => 1,
             "id255" => 255,
@@ -398,6 +398,7 @@ pub fn mk_pks<C: BlsSignatureImpl>(m: &Mk) -> PublicKeyShare<C> {
     PublicKeyShare::<C>::try_from(b.as_slice()).expect("share container")
 }
 
+#[macro_export]
 macro_rules! subjects {
     ($mac:ident, $c:ty) => {
         $mac!("SecretKey", SecretKey<$c>, |m: &Mk| m.sk::<$c>());
